@@ -76,8 +76,28 @@ struct Routes
     int access = 0;
     // constructor / update arguments: 0 durations lvalue, matrix and boundary temporaries  1 all temporaries  2 all named lvalues
     int args = 0;
+    // how a returned result is consumed: 0 converted at once; 1 bound to a reference (`const auto &r = f(a)`), then the
+    // same function is called again with other arguments, and only then r is read (two results alive together)
+    int hold = 0;
+    // one extra read-only query right after every construction / update, before the monitor's own first query:
+    // 0 none, 1 getEnergy, 2 getEnergyGrad, 3 getEnergyGradBoundary, 4 getEnergyGradTimes, 5 getEnergyGradInnerPoints,
+    // 6 getEnergyPartialGradByCoeffs, 7 getEnergyPartialGradByTimes, 8 propagateGrad, 9 trajectory evaluation
+    int prequery = 0;
 };
 extern Routes g_routes;
+// held-reference consumption (Routes::hold): `call` and `other` return exactly what the library returns (decltype(auto))
+template <class F1, class F2, class Conv>
+auto consumeHeld(F1 &&call, F2 &&other, Conv &&conv)
+{
+    if (g_routes.hold)
+    {
+        const auto &r = call();
+        const auto &r2 = other();
+        (void)r2;
+        return conv(r);
+    }
+    return conv(call());
+}
 
 struct IPPoly
 {
@@ -198,10 +218,26 @@ std::unique_ptr<IPPoly> makePPoly(int dim, int fixedOrder); // fixedOrder -1 = d
 bool havePPolyCell(int dim, int fixedOrder);
 std::vector<std::pair<int, int>> ppolyCells();
 
+// What a spline computed for a fixed small problem while the program's static objects were still being initialised (a
+// namespace-scope constant such as `static const double kRefEnergy = refSpline.getEnergy();` in user code).
+struct StaticInitRecord
+{
+    Problem p;
+    MatrixXd gC;
+    VectorXd gT;
+    MatrixXd C;
+    double E = 0;
+    Grads eg, pg;
+    MatrixXd evals; // rows: derivative 0..2 at the start, at an interior time and at the end
+};
+Problem staticInitProblem(int order, int dim);
+const StaticInitRecord &splineStaticInit(int order, int dim);
+
 // ---- registration (used by adapter TUs) ----
 struct SplineFactory
 {
     int order, dim;
+    const StaticInitRecord *staticInit = nullptr;
     std::function<std::unique_ptr<ISpline>()> makeDefault;
     std::function<std::unique_ptr<ISpline>(const Problem &, int mode)> makeCtor; // mode 0 dur,1 pts,2 dur-defaultbc,3 pts-defaultbc
 };
